@@ -71,6 +71,15 @@ EventOK(e) ==
          IN /\ ToSet(e.s) = S /\ ToSet(e.t) = T /\ Len(e.s) = Cardinality(S)
             /\ ToSet(e.union) = S \cup T /\ ToSet(e.minus) = S \ T /\ ToSet(e.inter) = S \cap T /\ ToSet(e.diff) = S \ T
             /\ e.contains = (e.q \in S) /\ e.len = Cardinality(S) /\ e.empty = (S = {})
+            /\ ToSet(e.union_with) = S \cup T /\ ToSet(e.intersect) = S \cap T /\ Len(e.intersect) = Cardinality(S \cap T)
+    \* equality (and hashing) of variable sets and partial models is equality of their contents, whatever constructor, declared size
+    \* or insert / remove history produced them
+    [] e.ev = "vs_eq" ->
+         /\ \A i, j \in 1 .. Len(e.s) : /\ e.eq[i][j] = (ToSet(e.s[i]) = ToSet(e.s[j]))
+                                         /\ (ToSet(e.s[i]) = ToSet(e.s[j]) => e.heq[i][j])
+         /\ e.distinct = Cardinality({ToSet(e.s[i]) : i \in 1 .. Len(e.s)})
+    [] e.ev = "pm_eq" -> \A i, j \in 1 .. Len(e.m) : e.eq[i][j] = (e.m[i] = e.m[j])
+    [] e.ev = "pm_total" -> e.m = [i \in 1 .. Len(e.in) |-> IF e.in[i] THEN 1 ELSE 0]
     [] e.ev \in {"h_new", "h_push", "h_pop", "h_decide"} -> TRUE
     [] e.ev = "h_hash" ->
          /\ e.h1 = e.h2
